@@ -854,7 +854,7 @@ func (x *Exec) execSlice(fr *Frame, n *Node, st *State, in *ssa.Slice) {
 		}
 		x.safety(fr, n, mkAnd(app("<=", "0", lo), app("<=", lo, hi), app("<=", hi, intLit(arr.Len()))), "slice-bounds", in.Pos())
 		x.setVal(fr, n, in, Term{S: app("mk_Slice", ref.S, lo, app("-", hi, lo), app("-", intLit(arr.Len()), lo)), Sort: SSlice})
-		if arr.Len() <= 8 && in.Low == nil && in.High == nil {
+		if _, isIface := types.Unalias(arr.Elem()).Underlying().(*types.Interface); arr.Len() <= 8 && in.Low == nil && in.High == nil && !isIface {
 			// the varargs idiom (new [k]T; stores; slice): seed the specification-level access terms of the k cells
 			// (instances of the defining axiom of uf_at) and remember them for later heap versions
 			h := x.heapElem(arr.Elem())
